@@ -37,7 +37,7 @@ var defs = map[string]propDef{
 		"(every parent assignment, every number of trailing empty rounds, PrevBlock linked or resolved through the block cache), plus seeded random larger trees; oracle = deepest common ancestor in an earlier round; " +
 		"finalizeRound driven over growing trees with the harness standing in for the finalized-block worker; rollback part: dead fork holding the LFB + competing fork that forks again below/at/above the LFB round, " +
 		"after every finalizeRound the new LFB must be the old one, a descendant, or on a rollback the most recent common ancestor (ancestry from the harness' own parent map); distinct = tree shape (parent vectors, tail, link mode)", runC36,
-		map[string]int64{"dca_linked": 1000, "dca_via_block_cache": 1000, "growth_finalized_descends_from_lfb": 100, "rollback_lfb_single_chain": 2000, "rollback_rollback_to_common_ancestor": 100}},
+		map[string]int64{"dca_linked": 1000, "dca_via_block_cache": 1000, "growth_finalized_descends_from_lfb": 100, "rollback_lfb_single_chain": 2000, "rollback_rollback_to_common_ancestor": 100, "sibling_lfb_single_chain": 1000, "sibling_scenarios[sibling-of-lfb,hidden=true]": 200}},
 	"C39": {"exploration", "real SimpleNodes.reduce on generated candidate layouts (stakes with many ties, previous sets, limits, percentages, seeds) vs size/pinned/stake-order/determinism oracles, " +
 		"id renaming through random bijections, and selection frequencies over many seeds inside every class of interchangeable candidates (same stake, same previous-set membership); " +
 		"distinct = (n, limit, pinned count, tie-class position/size, cut-off inside tie) layout classes", runC39,
